@@ -10,6 +10,10 @@ def script(rng, tier):
     n = len(types)
     ops = []
     bound = {}
+    # a monitor that is full from the first event on and that nobody reads (before the endpoints exist, so that they report to it)
+    for i in range(n):
+        if rng.random() < 0.15:
+            ops.append("M%d" % i)
     # set-up phase: binds and connects, sometimes none at all
     for i in range(n):
         if i % 2 == 1 and rng.random() < 0.85:
@@ -88,7 +92,7 @@ def gen(rng, tier):
 def dist(cases):
     d = {"cases": len(cases), "ops": 0, "with_bg_close": 0, "with_bg_term": 0, "with_half_handshake": 0, "with_dead_connect": 0,
          "with_blocked_recv": 0, "with_blocked_send": 0, "with_three_or_more_parked_in_one_call": 0,
-         "with_unlimited_send_wait": 0}
+         "with_unlimited_send_wait": 0, "with_full_unread_monitor": 0}
     for c in cases:
         ops = c[0].split(" ")[3].split(";")
         d["ops"] += len(ops)
@@ -99,6 +103,7 @@ def dist(cases):
         d["with_blocked_recv"] += any(o.startswith("R") for o in ops)
         d["with_blocked_send"] += any(o.startswith("S") for o in ops)
         d["with_unlimited_send_wait"] += any(o.startswith("B") for o in ops)
+        d["with_full_unread_monitor"] += any(o.startswith("M") for o in ops)
         d["with_three_or_more_parked_in_one_call"] += any(ops.count(o) >= 3 for o in ops if o[0] in "SR")
     return d
 
@@ -108,7 +113,7 @@ SPEC = {
                     "nontrivial": lambda c, i: any(l == "lifecycle=ok" for l in i), "dist": dist}],
     "search": lambda rng, tier: [("stack", gen(rng, "quick") + gen(rng, "quick"), None, False)],
     "rule": "stack level: random histories of API calls (bind tcp/ipc/inproc, connect, connect to a dead port, a raw peer stuck in the "
-            "handshake, send, background senders blocked at the HWM or for want of a peer, background receivers blocked in recv() (one or several per socket), set_option, monitor, close() "
+            "handshake, a monitor of capacity 1 that nobody reads, send, background senders blocked at the HWM or for want of a peer, background receivers blocked in recv() (one or several per socket), set_option, monitor, close() "
             "inline / from another task / twice, handle drop, term() inline / from another task) on 2..4 sockets of one context, on "
             "current-thread and multi-thread runtimes, each ending in term(); oracles: close() returns within 15 s and term() within 25 s, "
             "term() never has to wait out a straggler (8 s), nothing panics, every operation on every socket fails within 3 s afterwards, "
